@@ -398,8 +398,7 @@ func (e *Engine) havocLoop(st *State, fr *frame, li *loopInfo) {
 			case *ssa.Alloc, *ssa.MakeSlice, *ssa.MakeMap, *ssa.MakeInterface:
 				allocKeys = append(allocKeys, e.allocEffects(ins)...)
 			case *ssa.Send, *ssa.Select, *ssa.Go:
-				st.calls = e.ctx.Fresh("calls", ArrSort(SInt, SEvent))
-				st.callsLen = e.ctx.Fresh("callsLen", SInt)
+				st.havocTrace()
 			}
 		}
 	}
@@ -503,13 +502,7 @@ func (e *Engine) havocLoop(st *State, fr *frame, li *loopInfo) {
 		st.havocAlloc()
 	}
 	if e.loopTouchesTrace(fr, li) {
-		ol := st.callsLen
-		oc := st.calls
-		st.calls = e.ctx.Fresh("calls", ArrSort(SInt, SEvent))
-		st.callsLen = e.ctx.Fresh("callsLen", SInt)
-		st.assume(Le(ol, st.callsLen))
-		j := T("j!q", SInt)
-		st.assume(Forall([]Term{j}, Implies(And(Le(IntLit(0), j), Lt(j, ol)), Eq(Select(st.calls, j), Select(oc, j)))))
+		st.havocTrace()
 	}
 	// unroll counters of inner loops restart
 }
@@ -933,7 +926,7 @@ func (e *Engine) cover(st *State, clause string, pos token.Pos) {
 			qf = append(qf, p)
 		}
 	}
-	ob.Query = e.buildQuery(qf, TTrue)
+	ob.Query = stripQuantified(e.buildQuery(qf, TTrue))
 	e.covers = append(e.covers, ob)
 }
 
@@ -1070,8 +1063,20 @@ func (e *Engine) verifyCase(fn *ssa.Function, c *Contract, cs *Case, res *FuncRe
 		ensures = append(ensures, cs.Ensures...)
 	}
 	for _, r := range rets {
+		e.cover(r, "return_reachable", fn.Pos())
 		penv := vc.specEnv(r)
 		penv.hasRes = true
+		if len(c.Witness) > 0 {
+			look := e.localLookup(r, fn)
+			for _, w := range c.Witness {
+				v, ok := look(w.Local)
+				if !ok {
+					// the local is not live on this path: an arbitrary value
+					v = wrapTyped(e.freshValue(r, "wit_"+w.Name, e.resolveType(pkgOf(fn), w.Type)), e.resolveType(pkgOf(fn), w.Type))
+				}
+				penv.vars[w.Name] = v
+			}
+		}
 		sig := fn.Signature
 		if sig.Results().Len() == 1 {
 			penv.result = wrapTyped(r.retVal, sig.Results().At(0).Type())
@@ -1093,9 +1098,6 @@ func (e *Engine) verifyCase(fn *ssa.Function, c *Contract, cs *Case, res *FuncRe
 		if vc.proto != nil {
 			vc.proto.atReturn(e, r, fn.Pos())
 		}
-	}
-	if len(rets) > 0 {
-		e.cover(rets[len(rets)-1], "return_reachable", fn.Pos())
 	}
 }
 
@@ -1157,4 +1159,19 @@ func (e *Engine) checkFrame(st *State, vc *verifyCtx) {
 		goal := Forall([]Term{r}, Implies(And(conds...), Eq(Select(cur, r), Select(old, r))))
 		e.oblige(st, "frame", "only_declared_locations_modified", goal, vc.fn.Pos())
 	}
+}
+
+// stripQuantified removes quantified assertions (prelude axioms) from a query;
+// used for the satisfiability (cover) checks, which solvers cannot answer in
+// the presence of quantifiers. The check becomes weaker, never unsound.
+func stripQuantified(q string) string {
+	var sb strings.Builder
+	for _, l := range strings.Split(q, "\n") {
+		if strings.HasPrefix(l, "(assert ") && (strings.Contains(l, "(forall ") || strings.Contains(l, "(exists ")) {
+			continue
+		}
+		sb.WriteString(l)
+		sb.WriteByte('\n')
+	}
+	return sb.String()
 }
